@@ -5,8 +5,38 @@
 -/
 import GoHeader.Lemmas.Store
 import GoHeader.Store.DelCache
+import GoHeader.Gen.Store
 namespace GoHeader.C08
 open GoHeader GoHeader.Store
+
+/-- Tie T (regenerated `Gen.deleteBudget` = the expression `sub := …` in `deleteRangeRaw`, in Go's wrapping int64
+    arithmetic): whatever the caller's deadline - `remaining` nanoseconds away, any non-negative int64, i.e. up to 292 years -
+    the share DeleteRange spends on deleting is itself non-negative and no longer than the deadline. So no deadline makes a
+    valid range undeletable by arithmetic alone ("DeleteRange accepts … a prefix, a suffix or the whole chain"). -/
+theorem c08_tie_delete_budget (remaining : Int64) (h : 0 ≤ remaining) :
+    0 ≤ Gen.deleteBudget remaining ∧ Gen.deleteBudget remaining ≤ remaining := by
+  unfold Gen.deleteBudget
+  have hr := Int64.le_iff_toInt_le.mp h
+  have hb := Int64.toInt_lt remaining
+  simp only [Int64.le_iff_toInt_le, Int64.toInt_mul, Int64.toInt_div]
+  have e0 : Int64.toInt 0 = 0 := by decide
+  have e100 : Int64.toInt 100 = 100 := by decide
+  have e95 : Int64.toInt 95 = 95 := by decide
+  rw [e0] at hr ⊢
+  rw [e100, e95]
+  generalize remaining.toInt = x at *
+  have hq : x.tdiv 100 = x / 100 := Int.tdiv_eq_ediv_of_nonneg hr
+  rw [hq]
+  have h1 : (x / 100).bmod (2^64) = x / 100 := by
+    apply Int.bmod_eq_of_le <;> omega
+  rw [h1]
+  have h2 : (x / 100 * 95).bmod (2^64) = x / 100 * 95 := by
+    apply Int.bmod_eq_of_le <;> omega
+  rw [h2]
+  omega
+
+/-- non-vacuity / the other direction: multiplying first wraps for a deadline five years away -/
+example : (157680000000000000 : Int64) * 95 / 100 < 0 := by decide
 
 /-- DeleteRange accepts only a prefix starting at Tail, a suffix ending at Head+1, or the whole chain. -/
 theorem c08_shapes (s : St) (hg : Good s) (a b : Nat) (hok : (s.deleteRange a b).2 = .ok) :
